@@ -1,20 +1,25 @@
 ------------------------------- MODULE Lookup -------------------------------
 (***************************************************************************)
 (* One search (TableLookup, src/action/lookup.rs) as a timed state         *)
-(* machine -- mechanism for C02, C03, C04.                                 *)
+(* machine -- the design-level model for C02, C03, C04.                    *)
 (*                                                                         *)
-(* Transcribed: the sorted candidate list with its "queried" flags         *)
-(* (insert_sorted_node), the ALPHA initial picks, the BETA iteration picks *)
-(* with insert_closest_nodes' replace-don't-shift behaviour, the distance  *)
-(* to beat per outstanding query, 1.5 s time-outs, the end-game (one 1.5 s *)
-(* timer, every unqueried candidate is queried), late answers to timed-out *)
-(* queries (accepted while the search runs), the announce to the first ANN *)
-(* candidates that sent a token.                                           *)
+(* The mechanism itself is LookupCore.tla (pure step operators transcribed *)
+(* from the code: the sorted candidate list with its "pinged" flags, the   *)
+(* ALPHA initial picks, the BETA iteration picks with insert_closest_      *)
+(* nodes' replace-don't-shift behaviour, the distance to beat per          *)
+(* outstanding query, the end-game, late answers to timed-out queries, the *)
+(* announce to the first ANN candidates that sent a token).  The same      *)
+(* operators predict every query of every recorded search in               *)
+(* trace/NodeTrace.tla, so what is model-checked here is what is compared  *)
+(* with the code there.                                                    *)
 (*                                                                         *)
-(* The environment is a universe of remote nodes; what each does with a    *)
-(* query is a constant function Behave: answer after a delay with a node   *)
-(* list / peers / token, or stay silent.  Time is discrete-event: the next *)
-(* step is always an earliest pending event (a delivery or a timer).       *)
+(* This module adds what the mechanism does not contain: time (1.5 s       *)
+(* time-outs per query, one 1.5 s timer for the end-game) and the          *)
+(* environment -- a universe of remote nodes; what each does with a query  *)
+(* is fixed per behaviour: answer after a delay with a node list / peers / *)
+(* token, or stay silent; some datagrams cannot be sent.  Time is          *)
+(* discrete-event: the next step is always an earliest pending event (a    *)
+(* delivery or a timer).                                                   *)
 (***************************************************************************)
 EXTENDS Integers, Sequences, FiniteSets
 
@@ -33,153 +38,103 @@ Names(n) == env.names[n]               \* the ids it lists in its answer
 Peers(n) == env.peers[n]               \* the peers it returns
 SendOk(n) == env.sendok[n]             \* can a datagram to it be sent
 
-VARIABLES now, cands, active, timedout, requested, toks, endgame, egAt, yielded, announced, done, doneAt,
-          inflight, nextTid, log
-vars == <<env, now, cands, active, timedout, requested, toks, endgame, egAt, yielded, announced, done, doneAt, inflight, nextTid, log>>
+VARIABLES now,
+          lk,        \* the mechanism's state (LookupCore): t, cands, active, timedout, requested, toks, eg, amb
+          meta,      \* transaction id -> [node, at, eg]: whom it was sent to, when, in the end-game or not (the timers)
+          tokv,      \* node -> the token it sent last
+          egAt, yielded, announced, done, doneAt,
+          inflight,  \* the answers under way: [tid, node, due]
+          nextTid, log
+vars == <<env, now, lk, meta, tokv, egAt, yielded, announced, done, doneAt, inflight, nextTid, log>>
 
+CloserD(t, a, b) == Dist(t, a) < Dist(t, b)
+LC == INSTANCE LookupCore WITH Closer <- CloserD
 D(n) == Dist(Target, n)
-\* insert_sorted_node: keep the list sorted by distance; an id already present is not inserted again
-InsertSorted(cs, n, q) ==
-    IF \E i \in 1..Len(cs) : cs[i].id = n THEN cs
-    ELSE LET k == Cardinality({i \in 1..Len(cs) : D(cs[i].id) < D(n)}) IN
-         SubSeq(cs, 1, k) \o <<[id |-> n, queried |-> q]>> \o SubSeq(cs, k + 1, Len(cs))
-RECURSIVE InsertAll(_, _, _)
-InsertAll(cs, ns, picked) ==
-    IF ns = <<>> THEN cs ELSE InsertAll(InsertSorted(cs, Head(ns), Head(ns) \in picked), Tail(ns), picked)
-
-\* insert_closest_nodes over BETA slots (0 = unused)
-RECURSIVE PlaceIn(_, _, _)
-PlaceIn(slots, n, i) ==
-    IF i > Len(slots) THEN slots
-    ELSE IF slots[i] = -1 THEN [slots EXCEPT ![i] = n]
-    ELSE IF D(n) < D(slots[i]) THEN [slots EXCEPT ![i] = n]
-    ELSE PlaceIn(slots, n, i + 1)
-RECURSIVE PickIterate(_, _)
-PickIterate(ns, slots) == IF ns = <<>> THEN slots ELSE PickIterate(Tail(ns), PlaceIn(slots, Head(ns), 1))
-Picked(slots) == {slots[i] : i \in {j \in 1..Len(slots) : slots[j] # -1}}
+H(n) == [id |-> n]
+cands == lk.cands
+endgame == lk.eg
 
 Min2(a, b) == IF a < b THEN a ELSE b
-RECURSIVE MinDist(_, _)
-MinDist(ns, acc) == IF ns = <<>> THEN acc ELSE MinDist(Tail(ns), Min2(acc, D(Head(ns))))
-
-\* start_request_round: returns the new [active, requested, inflight, nextTid, log]
-RECURSIVE Round(_, _, _, _)
-Round(st, ns, dtb, t) ==
-    IF ns = <<>> THEN st
-    ELSE LET n == Head(ns)
-             tid == st.nextTid
-             ok == SendOk(n)
-             st1 == [st EXCEPT !.nextTid = @ + 1,
-                               !.active = @ \cup {[tid |-> tid, dtb |-> dtb, node |-> n, at |-> t, eg |-> FALSE]},
-                               !.log = Append(@, [ev |-> "query", tid |-> tid, node |-> n, at |-> t, ok |-> ok])]
-             st2 == IF ok THEN [st1 EXCEPT !.requested = @ \cup {n}, !.sent = @ + 1,
-                                           !.inflight = IF Delay(n) >= 0 THEN @ \cup {[tid |-> tid, node |-> n, due |-> t + Delay(n)]} ELSE @]
-                    ELSE st1 IN
-         Round(st2, Tail(ns), dtb, t)
-\* messages_sent == 0 => active_lookups.clear()
-RoundDone(st0, ns, dtb, t) ==
-    LET st == Round([st0 EXCEPT !.sent = 0], ns, dtb, t) IN
-    IF st.sent = 0 THEN [st EXCEPT !.active = {}] ELSE st
-
-Pack == [active |-> active, requested |-> requested, inflight |-> inflight, nextTid |-> nextTid, log |-> log, sent |-> 0]
-
+FSet(f, k, v) == [x \in DOMAIN f \cup {k} |-> IF x = k THEN v ELSE f[x]]
 SeqOf(S) == LET RECURSIVE F(_) F(T) == IF T = {} THEN <<>> ELSE LET x == CHOOSE y \in T : \A z \in T : D(y) <= D(z) IN <<x>> \o F(T \ {x}) IN F(S)
 
-InitWith ==
-    LET c0 == InsertAll(<<>>, SubSeq(Initial, 1, Min2(Len(Initial), MAXC)), {})
-        k == Min2(ALPHA, Len(c0))
-        c1 == [i \in 1..Len(c0) |-> IF i <= k THEN [c0[i] EXCEPT !.queried = TRUE] ELSE c0[i]]
-        base == [active |-> {}, requested |-> {}, inflight |-> {}, nextTid |-> 1, log |-> <<>>, sent |-> 0]
-        \* every initial pick is queried with ITS OWN distance as the distance to beat
-        RECURSIVE Each(_, _)
-        Each(st, i) == IF i > k THEN st ELSE Each(Round(st, <<c1[i].id>>, D(c1[i].id), 0), i + 1)
-        st0 == Each(base, 1)
-        st == IF st0.sent = 0 THEN [st0 EXCEPT !.active = {}] ELSE st0 IN
-    /\ now = 0 /\ cands = c1 /\ active = st.active /\ requested = st.requested /\ inflight = st.inflight
-    /\ nextTid = st.nextTid /\ log = st.log /\ timedout = {} /\ toks = <<>> /\ endgame = FALSE /\ egAt = -1
-    /\ yielded = <<>> /\ announced = <<>>
-    \* lookup.completed(): nothing could be queried -> recv_finished at once
-    /\ done = (st.active = {}) /\ doneAt = IF st.active = {} THEN 0 ELSE -1
+\* ---- the environment's side of a batch of attempts made at time t: transaction ids, which datagrams leave, log, timers, answers
+Oks(picks) == [i \in 1..Len(picks) |-> SendOk(picks[i].h.id)]
+Book(b, picks, t, isEg) ==
+    LET n == Len(picks)
+        tid(i) == b.nextTid + i - 1 IN
+    [nextTid |-> b.nextTid + n,
+     log |-> b.log \o [i \in 1..n |-> [ev |-> "query", tid |-> tid(i), node |-> picks[i].h.id, at |-> t, ok |-> SendOk(picks[i].h.id)]],
+     meta |-> [x \in DOMAIN b.meta \cup {tid(i) : i \in 1..n} |->
+                  IF x \in DOMAIN b.meta THEN b.meta[x] ELSE [node |-> picks[x - b.nextTid + 1].h.id, at |-> t, eg |-> isEg]],
+     inflight |-> b.inflight \cup {[tid |-> tid(i), node |-> picks[i].h.id, due |-> t + Delay(picks[i].h.id)] :
+                                     i \in {j \in 1..n : SendOk(picks[j].h.id) /\ Delay(picks[j].h.id) >= 0}}]
+Tids(b, n) == [i \in 1..n |-> b.nextTid + i - 1]
 
-FSet(f, k, v) == [x \in DOMAIN f \cup {k} |-> IF x = k THEN v ELSE f[x]]
+\* a step of the mechanism that may send: the round picked by LookupCore, then the end-game if nothing is outstanding any more
+Go(st, picks, t, b) ==
+    LET n == Len(picks)
+        st1 == IF n = 0 THEN st ELSE LC!AfterRound(st, picks, Tids(b, n), Oks(picks))
+        b1 == Book(b, picks, t, FALSE)
+        eg == LC!NeedEndgame(st1)
+        ep == IF eg /\ EndgameQueriesAll THEN LC!EgPicks(st1) ELSE <<>>
+        st2 == IF ~eg THEN st1
+               ELSE IF EndgameQueriesAll THEN LC!AfterEndgame(st1, Tids(b1, Len(ep)), Oks(ep))
+               ELSE [st1 EXCEPT !.eg = TRUE]
+        b2 == Book(b1, ep, t, TRUE) IN
+    [st |-> st2, b |-> b2, eg |-> eg]
+Pack == [nextTid |-> nextTid, log |-> log, meta |-> meta, inflight |-> inflight]
 
-\* start_endgame_round on state record st (already containing the updated active set)
-StartEndgame(cs, st, t) ==
-    LET unq == {i \in 1..Len(cs) : ~cs[i].queried}
-        RECURSIVE Go(_, _, _)
-        Go(c, s, i) ==
-            IF i > Len(c) THEN [c |-> c, s |-> s]
-            ELSE IF c[i].queried THEN Go(c, s, i + 1)
-            ELSE LET n == c[i].id
-                     tid == s.nextTid
-                     ok == SendOk(n)
-                     s1 == [s EXCEPT !.nextTid = @ + 1,
-                                     !.active = @ \cup {[tid |-> tid, dtb |-> D(n), node |-> n, at |-> t, eg |-> TRUE]},
-                                     !.log = Append(@, [ev |-> "query", tid |-> tid, node |-> n, at |-> t, ok |-> ok]),
-                                     !.inflight = IF ok /\ Delay(n) >= 0 THEN @ \cup {[tid |-> tid, node |-> n, due |-> t + Delay(n)]} ELSE @] IN
-                 Go(IF ok THEN [c EXCEPT ![i].queried = TRUE] ELSE c, s1, i + 1) IN
-    IF EndgameQueriesAll THEN Go(cs, st, 1) ELSE [c |-> cs, s |-> st]
-
-Finish(cs, tk) ==
-    LET withTok == SelectSeq(cs, LAMBDA c : c.id \in DOMAIN tk)
-        pick == SubSeq(withTok, 1, Min2(ANN, Len(withTok))) IN
-    IF Announce THEN [i \in 1..Len(pick) |-> [dst |-> pick[i].id, token |-> tk[pick[i].id]]] ELSE <<>>
-
-Init == env \in ENVS /\ InitWith
+Init ==
+    /\ env \in ENVS
+    /\ LET N == LC!New([i \in 1..Len(Initial) |-> H(Initial[i])], Target)
+           b0 == [nextTid |-> 1, log |-> <<>>, meta |-> <<>>, inflight |-> {}]
+           n == Len(N.picks)
+           st == LC!AfterRound(N.st, N.picks, Tids(b0, n), Oks(N.picks))
+           b == Book(b0, N.picks, 0, FALSE) IN
+       /\ now = 0 /\ lk = st /\ meta = b.meta /\ inflight = b.inflight /\ nextTid = b.nextTid /\ log = b.log
+       /\ tokv = <<>> /\ egAt = -1 /\ yielded = <<>> /\ announced = <<>>
+       \* lookup.completed(): nothing could be queried -> recv_finished at once
+       /\ done = (DOMAIN st.active = {}) /\ doneAt = IF DOMAIN st.active = {} THEN 0 ELSE -1
 
 \* ---- events
 Earliest(t) ==
     /\ \A m \in inflight : m.due >= t
-    /\ \A a \in active : (~a.eg /\ ~endgame) => a.at + TIMEOUT >= t
-    /\ (endgame => egAt + TIMEOUT >= t)
+    /\ \A x \in DOMAIN lk.active : (~meta[x].eg /\ ~lk.eg) => meta[x].at + TIMEOUT >= t
+    /\ (lk.eg => egAt + TIMEOUT >= t)
 
 Deliver(m) ==
     /\ ~done /\ m \in inflight /\ Earliest(m.due) /\ now' = m.due
-    /\ LET a == {x \in active : x.tid = m.tid}
-           late == m.tid \in timedout
-           tk2 == FSet(toks, m.node, [by |-> m.node, tid |-> m.tid])
+    /\ LET names == Names(m.node)
+           R == LC!OnResponse(lk, m.tid, H(m.node), [i \in 1..Len(names) |-> H(names[i])], TRUE)
+           G == Go(R.st, R.picks, m.due, [Pack EXCEPT !.inflight = @ \ {m}])
            vals == Peers(m.node) IN
-       IF a # {} THEN
-           LET act == CHOOSE x \in a : TRUE
-               names == SelectSeq(Names(m.node), LAMBDA n : TRUE)
-               fresh == SelectSeq(names, LAMBDA n : n \notin requested)
-               nd == MinDist(fresh, act.dtb)
-               iter == IF names # <<>> /\ nd < act.dtb THEN Picked(PickIterate(fresh, [i \in 1..BETA |-> -1])) ELSE {}
-               cs1 == InsertAll(cands, names, iter)
-               st0 == [Pack EXCEPT !.active = active \ a, !.inflight = inflight \ {m}]
-               st1 == IF ~endgame /\ iter # {} THEN RoundDone(st0, SeqOf(iter), nd, m.due) ELSE st0
-               eg == ~endgame /\ st1.active = {}
-               r == IF eg THEN StartEndgame(cs1, st1, m.due) ELSE [c |-> cs1, s |-> st1] IN
-           /\ cands' = r.c /\ active' = r.s.active /\ requested' = r.s.requested /\ inflight' = r.s.inflight
-           /\ nextTid' = r.s.nextTid /\ log' = Append(r.s.log, [ev |-> "consumed", tid |-> m.tid, at |-> m.due])
-           /\ endgame' = (endgame \/ eg) /\ egAt' = IF eg THEN m.due ELSE egAt
-           /\ toks' = tk2 /\ yielded' = yielded \o [i \in 1..Len(vals) |-> [addr |-> vals[i], tid |-> m.tid]]
-           /\ UNCHANGED <<timedout, announced, done, doneAt>>
-       ELSE IF late THEN
-           /\ toks' = tk2 /\ yielded' = yielded \o [i \in 1..Len(vals) |-> [addr |-> vals[i], tid |-> m.tid]]
-           /\ timedout' = timedout \ {m.tid} /\ inflight' = inflight \ {m}
-           /\ log' = Append(log, [ev |-> "consumed", tid |-> m.tid, at |-> m.due])
-           /\ UNCHANGED <<cands, active, requested, endgame, egAt, announced, done, doneAt, nextTid>>
-       ELSE /\ inflight' = inflight \ {m}
-            /\ UNCHANGED <<cands, active, timedout, requested, toks, endgame, egAt, yielded, announced, done, doneAt, nextTid, log>>
+       /\ lk' = G.st /\ meta' = G.b.meta /\ inflight' = G.b.inflight /\ nextTid' = G.b.nextTid
+       /\ log' = IF R.consumed THEN Append(G.b.log, [ev |-> "consumed", tid |-> m.tid, at |-> m.due]) ELSE G.b.log
+       /\ egAt' = IF G.eg THEN m.due ELSE egAt
+       /\ tokv' = IF R.consumed THEN FSet(tokv, m.node, [by |-> m.node, tid |-> m.tid]) ELSE tokv
+       /\ yielded' = IF R.consumed THEN yielded \o [i \in 1..Len(vals) |-> [addr |-> vals[i], tid |-> m.tid]] ELSE yielded
+       /\ UNCHANGED <<announced, done, doneAt>>
 
-Timeout(a) ==
-    /\ ~done /\ ~endgame /\ a \in active /\ ~a.eg /\ Earliest(a.at + TIMEOUT) /\ now' = a.at + TIMEOUT
-    /\ LET st1 == [Pack EXCEPT !.active = active \ {a}]
-           eg == st1.active = {}
-           r == IF eg THEN StartEndgame(cands, st1, a.at + TIMEOUT) ELSE [c |-> cands, s |-> st1] IN
-       /\ cands' = r.c /\ active' = r.s.active /\ inflight' = r.s.inflight /\ nextTid' = r.s.nextTid
-       /\ log' = Append(r.s.log, [ev |-> "timeout", tid |-> a.tid, at |-> a.at + TIMEOUT])
-       /\ endgame' = eg /\ egAt' = IF eg THEN a.at + TIMEOUT ELSE egAt
-       /\ timedout' = timedout \cup {a.tid}
-    /\ UNCHANGED <<requested, toks, yielded, announced, done, doneAt>>
+Timeout(x) ==
+    /\ ~done /\ ~lk.eg /\ x \in DOMAIN lk.active /\ ~meta[x].eg
+    /\ Earliest(meta[x].at + TIMEOUT) /\ now' = meta[x].at + TIMEOUT
+    /\ LET G == Go(LC!OnTimeout(lk, x), <<>>, meta[x].at + TIMEOUT, Pack) IN
+       /\ lk' = G.st /\ meta' = G.b.meta /\ inflight' = G.b.inflight /\ nextTid' = G.b.nextTid
+       /\ log' = Append(G.b.log, [ev |-> "timeout", tid |-> x, at |-> meta[x].at + TIMEOUT])
+       /\ egAt' = IF G.eg THEN meta[x].at + TIMEOUT ELSE egAt
+    /\ UNCHANGED <<tokv, yielded, announced, done, doneAt>>
+
+Finish ==
+    LET hs == LC!Announces(lk) IN
+    IF Announce THEN [i \in 1..Len(hs) |-> [dst |-> hs[i].id, token |-> tokv[hs[i].id]]] ELSE <<>>
 
 EndgameFires ==
-    /\ ~done /\ endgame /\ Earliest(egAt + TIMEOUT) /\ now' = egAt + TIMEOUT
-    /\ announced' = Finish(cands, toks) /\ done' = TRUE /\ doneAt' = egAt + TIMEOUT
-    /\ UNCHANGED <<cands, active, timedout, requested, toks, endgame, egAt, yielded, inflight, nextTid, log>>
+    /\ ~done /\ lk.eg /\ Earliest(egAt + TIMEOUT) /\ now' = egAt + TIMEOUT
+    /\ announced' = Finish /\ done' = TRUE /\ doneAt' = egAt + TIMEOUT
+    /\ UNCHANGED <<lk, meta, tokv, egAt, yielded, inflight, nextTid, log>>
 
-Next == UNCHANGED env /\ ((\E m \in inflight : Deliver(m)) \/ (\E a \in active : Timeout(a)) \/ EndgameFires)
+Next == UNCHANGED env /\ ((\E m \in inflight : Deliver(m)) \/ (\E x \in DOMAIN lk.active : Timeout(x)) \/ EndgameFires)
 Spec == Init /\ [][Next]_vars /\ WF_vars(Next)
 
 (***************************************************************************)
@@ -192,13 +147,13 @@ QueryOf(tid) == CHOOSE q \in Queries : q.tid = tid
 YieldJustified == \A i \in 1..Len(yielded) : \E q \in Queries : q.tid = yielded[i].tid /\ q.ok
 AnnounceOK ==
     /\ Len(announced) <= ANN /\ (~Announce => announced = <<>>)
-    /\ \A i \in 1..Len(announced) : announced[i].dst \in DOMAIN toks /\ announced[i].token = toks[announced[i].dst]
+    /\ \A i \in 1..Len(announced) : announced[i].dst \in DOMAIN tokv /\ announced[i].token = tokv[announced[i].dst]
     /\ \A i, j \in 1..Len(announced) : i # j => announced[i].dst # announced[j].dst
 \* C04: the search ends neither early nor never
 Unanswered == {q \in Queries : q.ok /\ ~\E i \in 1..Len(log) : log[i].ev = "consumed" /\ log[i].tid = q.tid}
 NoEarlyClose == done => \A q \in Unanswered : doneAt - q.at >= TIMEOUT \/ (\E q2 \in Queries : ~q2.ok)
 T0 == IF Queries = {} THEN 0 ELSE CHOOSE t \in {q.at : q \in Queries} : \A q \in Queries : t <= q.at
-Told == {q.node : q \in Queries} \cup {cands[i].id : i \in 1..Len(cands)}
+Told == {q.node : q \in Queries} \cup {cands[i].h.id : i \in 1..Len(cands)}
 ClosedBy == done => doneAt <= T0 + TIMEOUT * Cardinality(Told) + 2 * TIMEOUT
 SilentCloseAt3s == (done /\ Queries # {} /\ (\A q \in Queries : q.ok) /\ ~\E i \in 1..Len(log) : log[i].ev = "consumed") => doneAt = T0 + 2 * TIMEOUT
 ImmediateWhenNothingToAsk == (Queries = {}) => (done /\ doneAt = 0)
